@@ -268,7 +268,9 @@ class C02(Check):
             'characters = 229 kB plain / 174 kB gz, i.e. > 2 blocks of the 65536-byte buffer the recovery code uses, between small records) is not cut at '
             'every byte but at a stated finite offset set: with n = |file| and [a,b) the long record, every base+j*65536+d and base-j*65536+d for base in '
             '{0,a,b,n}, all j, d in -3..3 (block boundaries counted from the start and from the END of the file and from both ends of the long record, its '
-            'first/last 3 bytes) plus e-1,e,e+1 for every record boundary e (plain and gz; thorough: 3 triple orders x 3 record orders)')
+            'first/last 3 bytes) plus e-1,e,e+1 for every record boundary e (plain and gz; thorough: 3 triple orders x 3 record orders). Shape S6 (4 triples, '
+            'one of them evaluated by a custom evaluator that yields ZERO rows, record ["I",ids,{"_packed":{}}], between normal triples) is cut at every byte '
+            'incl. the complete file (thorough: 3 record orders)')
     ASSUMPTIONS = [
         'crash model: a killed run leaves a byte-prefix of the append-only log (process kill; no page-cache reordering, no power loss)',
         'resumed runs are in-process, plus - for the first order of the 2x2 / 4-triple shapes - on worker processes (2,0,0) [thorough also (1,1,1),(2,1,0)] run on the simulated spawn context under the default schedule only (schedules of the resumed run are C01\'s subject)',
@@ -312,6 +314,9 @@ class C02(Check):
             for kind in ('plain', 'gz'):
                 for lines in ('asis',) if quick else ('asis', 'rev', 'rot'):
                     yield {'shape': 'S5', 'order': order, 'lines': lines, 'kind': kind, 'offsets': 'blocks'}
+        for kind in ('plain', 'gz'):
+            for lines in ('asis',) if quick else ('asis', 'rev', 'rot'):
+                yield {'shape': 'S6', 'order': [0, 1, 2, 3], 'lines': lines, 'kind': kind}
         o2 = ORD_S2_QUICK if quick else [list(p) for p in itertools.permutations(range(4))]
         o4 = ORD_S4_QUICK if quick else [list(p) for p in itertools.permutations(range(4))]
         for shape, orders in (('S2', o2), ('S4', o4)):
@@ -333,7 +338,7 @@ class C02(Check):
                 else:
                     cfgs += [[2, 0, 0], [1, 1, 1], [2, 1, 0]]
             for cfg in cfgs:
-                n = {'S1': 6, 'S2': 16, 'S4': 24, 'S5': 16}[h['shape']] * (3 if h['kind'] == 'gz' and h['shape'] != 'S5' else 2) // 2
+                n = {'S1': 6, 'S2': 16, 'S4': 24, 'S5': 16, 'S6': 16}[h['shape']] * (3 if h['kind'] == 'gz' and h['shape'] != 'S5' else 2) // 2
                 for i in range(n):
                     yield {**h, 'config': cfg, 'chunk': [i, n]}
 
@@ -400,7 +405,8 @@ class C02(Check):
             if st != 'ok': raise HarnessError(f'the uninterrupted run of {key} raised {snap!r}')
             want = sorted(parts.triple_ids(h['shape'], h['order']).values())
             if sorted(calls) != want: raise HarnessError(f'the uninterrupted run of {key} evaluated {calls}, expected each of {want} once')
-            ids = set(parts.triple_ids(h['shape'], h['order']))
+            zero = parts.zero_row_triples(h['shape'])
+            ids = {i for i, t in parts.triple_ids(h['shape'], h['order']).items() if t not in zero}
             if {k[:3] for k in snap['interactions']} != ids: raise HarnessError(f'the uninterrupted run of {key} has no rows for some triple; log: {log}')
             with open(path, 'rb') as f: seen.append((f.read(), snap))
         (L1, s1), (L2, s2) = seen
@@ -442,7 +448,8 @@ class C02(Check):
 
         def bad(key, what, fine=False):
             found.append(key)
-            acc.violation(f'{key}|{feature if fine else coarse}', what if len(what) <= 700 else what[:700] + ' ...', witness)
+            feat = fine if isinstance(fine, str) else feature if fine else coarse
+            acc.violation(f'{key}|{feat}', what if len(what) <= 700 else what[:700] + ' ...', witness)
 
         try:
             # ---- (d) the truncated file is readable and shows what is complete in it
@@ -477,8 +484,12 @@ class C02(Check):
             if not same(ref['experiment'], snap['experiment']):
                 bad('result|experiment record of the resumed run differs from the uninterrupted run', f"{snap['experiment']} instead of {ref['experiment']}", True)
             # (b) nothing recorded is evaluated again
+            # (a record of an evaluation that yielded no rows - ["I",ids,{"_packed":{}}] - is a record like any other; keyed apart)
+            norows = {t for t in ids2tags if not any(k[:3] == t for k in ref['interactions'])}
             again = [t for t in have['I'] if t in ids2tags and ids2tags[t] in calls]
-            if again: bad('resume|triple with a complete record in the file is evaluated again', f'ids {again} recorded in the file, evaluate calls {calls}')
+            ZERO = 'record of an evaluation that yielded zero rows'       # one root cause whatever the cut: keyed by that feature alone
+            for sel, feat in (([t for t in again if t not in norows], False), ([t for t in again if t in norows], ZERO)):
+                if sel: bad('resume|triple with a complete record in the file is evaluated again', f'ids {sel} recorded in the file, evaluate calls {calls}', feat)
             # (c) the final file
             with open(path, 'rb') as f: final = f.read()
             st = self._load(path)
@@ -491,7 +502,8 @@ class C02(Check):
             fin = analyse(final, gz)
             fids = rec_ids(fin['records'] + fin['exempt'] + ([fin['tail_record']] if fin['tail_record'] is not None else []))
             dup = sorted({t for t in fids['I'] if fids['I'].count(t) > 1})
-            if dup: bad('file|interaction record written twice', f'triples {dup} occur {[fids["I"].count(t) for t in dup]} times in the final file')
+            for sel, feat in (([t for t in dup if t not in norows], False), ([t for t in dup if t in norows], ZERO)):
+                if sel: bad('file|interaction record written twice', f'triples {sel} occur {[fids["I"].count(t) for t in sel]} times in the final file', feat)
             for c, name in REC_TABLE.items():
                 dup = sorted({i for i in fids[c] if fids[c].count(i) > 1})
                 if dup: bad(f'file|parameter record written twice', f'{name} ids {dup} occur more than once in the final file')
